@@ -80,7 +80,7 @@ def validate(ck, agg, nn):
             if clsname.startswith("RF24Mesh") and nm == "send":
                 continue  # delegates to write() after the lookup; analysed through write()
             nsend += 1
-            st, node = n2.fresh(fields={"_frag_enabled": False, "max_message_length": 24})
+            st, node = n2.fresh(fields={"_frag_enabled": False, "max_message_length": 144})
             names = [x.arg for x in fi.node.args.args][1:]
             anns = {x.arg: (ast.unparse(x.annotation) if x.annotation is not None else "") for x in fi.node.args.args}
             args, msgparam = [], None
@@ -140,7 +140,7 @@ def receive(ck, agg, nn):
             n += 1
             st, node = nn.fresh(fields={"allow_multicast": am, "ret_sys_msg": False})
             addr = st.heap[node.ident].fields["_addr"]
-            outs = nn.run(f, node, [], st, limits=Limits(max_paths=40000, loop_unroll=1, depth=14, concrete_loop=10))
+            outs = nn.run(f, node, [], st, limits=Limits(max_paths=40000, loop_unroll=2, depth=14, concrete_loop=10))
             for out in outs:
                 if out.kind != "return":
                     continue
@@ -168,7 +168,10 @@ def receive(ck, agg, nn):
                     def is_to(x):
                         x = norm(x)
                         return isinstance(x, Sym) and x.attrs.get("unpack") and x.attrs["unpack"][1] == 1
-                    to_self = pol_of(lambda e: any(is_to(x) for x in e.data[1]) and any(same(x, addr) for x in e.data[1]))
+                    def is_addr(x):
+                        x = norm(x)
+                        return isinstance(x, Sym) and isinstance(x.name, str) and x.name.split("#")[0] == "node._addr"
+                    to_self = pol_of(lambda e: any(is_to(x) for x in e.data[1]) and any(is_addr(x) for x in e.data[1]))
                     to_mc = pol_of(lambda e: any(is_to(x) for x in e.data[1]) and any(const_of(norm(x)) == MCAST for x in e.data[1]))
                     if e_here:
                         agg.add("R05.3", f, "a frame is queued only if it is addressed to this node or to the multicast address", to_self is True or to_mc is True,
